@@ -84,7 +84,13 @@ CAT = [
     ["hql", "CLUSTERED BY (a) INTO 0 BUCKETS", {"clustered_by": ["a"], "into_buckets": "0"}, {"table_properties": {"clustered_by": ["a"], "into_buckets": "0"}}],
     ["hql", "TBLPROPERTIES ('k1'='')", {"tblproperties": {"'k1'": "''"}}, {"table_properties": {"tblproperties": {"'k1'": "''"}}}],
     ["bigquery", "OPTIONS (description='')", {"options": [{"description": "''"}]}, {"table_properties": {"options": [{"description": "''"}]}}],
+    ["mssql", "WITH (DATA_COMPRESSION = ROW)", {"with": {"properties": [{"name": "DATA_COMPRESSION", "value": "ROW"}], "on": None}},
+     {"table_properties": {"with": {"properties": [{"name": "DATA_COMPRESSION", "value": "ROW"}], "on": None}}}],
+    ["oracle", "STORAGE (INITIAL 8M NEXT 2M)", {"storage": {"initial": "8M", "next": "2M"}}, {"table_properties": {"storage": {"initial": "8M", "next": "2M"}}}],
+    ["bigquery", "OPTIONS (description='e')", {"options": [{"description": "'e'"}]}, {"table_properties": {"options": [{"description": "'e'"}]}}],
+    ["snowflake", "WITH TAG (t2='v2')", {"with_tag": "t2='v2'"}, {"table_properties": {"with_tag": "t2='v2'"}}],
 ]
+BODY2 = "CREATE TABLE s.t2 (a int, b varchar(10), dt date)"
 BODIES = {
     "plain": "CREATE TABLE s.t (a int, b varchar(10), dt date)",
     "nn": "CREATE TABLE s.t (a int, b varchar(10), dt date NOT NULL)",
@@ -101,7 +107,7 @@ BODIES = {
 }
 COMMON = ["table_name", "schema", "dataset", "primary_key", "columns", "alter", "checks", "index", "constraints"]
 COMBO_BODIES = ["plain", "defs", "pktab"]
-FORBIDDEN_AFTER = {"ORGANIZATION INDEX": ("TABLESPACE ts1", "STORAGE (INITIAL 5M NEXT 5M)")}
+FORBIDDEN_AFTER = {"ORGANIZATION INDEX": ("TABLESPACE", "STORAGE")}
 
 
 def bounds(tier):
@@ -136,17 +142,27 @@ def gen_cases(tier):
                 texts = [CAT[i][1] for i in combo]
                 bad = False
                 for later, earlier in FORBIDDEN_AFTER.items():
-                    if later in texts and any(e in texts[:texts.index(later)] for e in earlier):
+                    if later in texts and any(t.startswith(e) for t in texts[:texts.index(later)] for e in earlier):
                         bad = True
                 if bad:
                     continue
                 for bn in COMBO_BODIES:
                     for m in (mode, "sql"):
                         cases.append({"body": bn, "clauses": list(combo), "mode": m})
+    # two tables in one script, each with one clause of the same dialect (also two spellings of the same clause): a clause value is
+    # captured for its own table only, whatever the other table carries
+    for mode, idxs in by_mode.items():
+        for i, j in itertools.product(idxs, repeat=2):
+            if i != j:
+                for m in (mode, "sql"):
+                    cases.append({"two": [i, j], "mode": m})
     return cases
 
 
 def build(case):
+    if "two" in case:
+        i, j = case["two"]
+        return BODIES["plain"] + " " + CAT[i][1] + ";\n" + BODY2 + " " + CAT[j][1] + ";"
     return BODIES[case["body"]] + " " + " ".join(CAT[i][1] for i in case["clauses"]) + ";"
 
 
@@ -163,13 +179,35 @@ def merge(deltas):
 
 def features(case):
     f = []
+    if "two" in case:
+        return ["two-tables:" + CAT[case["two"][0]][0]]
     texts = [CAT[i][1] for i in case["clauses"]]
     if len(texts) >= 2:
         f.append("combo:" + CAT[case["clauses"][0]][0])
     return f
 
 
+def _two(case):
+    m = case["mode"]
+    r = run_ddl(build(case), None, {"output_mode": m})
+    if r[0] != "ok":
+        return {"diffs": [diff("run", "raises:" + r[1], "result", r[2])], "outcome": "exc"}
+    if len(r[1]) != 2 or not all(is_table(t) for t in r[1]):
+        return {"diffs": [diff("result", "table-missing", "two tables", short(r[1], 200))], "nontrivial": True, "outcome": "missing"}
+    D = []
+    for n, (body, ci) in enumerate(((BODIES["plain"], case["two"][0]), (BODY2, case["two"][1]))):
+        b = run_ddl(body + ";", None, {"output_mode": m})[1][0]
+        t = r[1][n]
+        want = CAT[ci][2] if m == CAT[ci][0] else CAT[ci][3]
+        got = {k: v for k, v in t.items() if b.get(k, "__missing__") != v}
+        if got != want:
+            D.append(diff("table %d of the script: clause delta (mode %s)" % (n + 1, m), "clause-value-differs-in-two-table-script", short(want, 200), short(got, 200)))
+    return {"diffs": D, "nontrivial": True, "outcome": "two:%s" % m}
+
+
 def evaluate(case):
+    if "two" in case:
+        return _two(case)
     m = case["mode"]
     b0 = run_ddl(BODIES[case["body"]] + ";", None, {"output_mode": m})
     r = run_ddl(build(case), None, {"output_mode": m})
